@@ -50,8 +50,8 @@ const (
 
 var (
 	feasTimeoutMS  = 2000
-	obligTimeoutMS = 10000
-	raceTimeoutMS  = 60000
+	obligTimeoutMS = 3000
+	raceTimeoutMS  = 90000
 	dumpDir        = os.Getenv("SSASYM_DUMP")
 )
 
@@ -326,12 +326,12 @@ func raceFallback(body string, names []string, vars []*Term, wantModel bool) Res
 			outb, _ := cmd.Output()
 			o := strings.TrimSpace(string(outb))
 			r := Result{Status: "unknown", Backend: b.name, Detail: o}
-			if strings.Contains(o, "(error") {
+			if strings.HasPrefix(o, "unsat") {
+				// (get-value) after unsat legitimately answers with an error; the verdict stands
+				r.Status = "unsat"
+			} else if strings.Contains(o, "(error") {
 				ch <- r
 				return
-			}
-			if strings.HasPrefix(o, "unsat") {
-				r.Status = "unsat"
 			} else if strings.HasPrefix(o, "sat") {
 				r.Status = "sat"
 				if wantModel {
